@@ -21,13 +21,13 @@ CLAIMS = {
              'languages from regex-syntax, pattern-typed field getters, RefCell guard liveness, data facts) or by a reviewed entry; (T) every natural loop and '
              'call-graph SCC in reach matches a ranking template whose side conditions are re-checked (iterator loops, counter loops, the '
              'three rewrite loops with the >= 2-token data premise, parser cursor loops); (S) one slot per line: split regex literal, push-per-iteration, '
-             'cursor increment. Calls to external functions outside the frozen table are obligations when their own rustdoc has a Panics clause or they are std slicing / splitting APIs; the variable-substitution loop additionally needs that a Variable token matches no field pattern (field_compare answers false for it on every path). Not decided: stack exhaustion on deep nesting, allocation failure, panics inside regex/chrono/serde on documented-domain inputs. Position obligations inside format_number and the byte-to-character map are discharged by the E6c walks (every walk returns with overflow flags, bounds checks and unwraps evaluated; bounded by the tabulated lengths); an unwrap of a token match written in place is discharged by the pattern typing of the field, like the typed getters.'),
+             'cursor increment. Calls to external functions outside the frozen table are obligations when their own rustdoc has a Panics clause or they are std slicing / splitting APIs; the variable-substitution loop additionally needs that a Variable token matches no field pattern (field_compare answers false for it on every path). Not decided: stack exhaustion on deep nesting, allocation failure, panics inside regex/chrono/serde on documented-domain inputs. Position obligations inside format_number and the byte-to-character map are discharged by the E6c walks (every walk returns with overflow flags, bounds checks and unwraps evaluated; bounded by the tabulated lengths); an unwrap of a token match written in place is discharged by the pattern typing of the field, like the typed getters. Position obligations of the pattern scan are discharged by the matcher table walk, never an unwrap of a field getter (that is decided by the patterns in the data).'),
     'C02': dict(
         technique='value-DAG (gated use-def) extraction of parser ladder, fold shape, operator tables; must-pass-through on the CFG; lexical competition model (E7b): generated sample lines evaluated on the configured regexes, family order and alias tables',
         ref='DESIGN.md section 5 C02',
         text='Static. Decided clauses: precedence ladder wiring and operator arrays; left fold in parse_binary; char->OperationType->arithmetic tables with operand order; '
              'guarded division (the returned term tabulated over finite, +-inf, NaN and overflowing quotients); the two suffix tables agree with 1000^k; implicit + / leading 0 insertion and its guard; every peek..return Ok(non-None) path in src/syntax consumes the token; '
-             'stage order of tokinize. G9 a detached prefix sign negates (tabulated on positive, negative and fractional literals), variables / percentages / money get exactly one PrefixUnary wrapper, every numeric DataItem::unary negates on Minus and keeps the value on Plus. G10 token_cleaner drops Text tokens from position 0 or from behind the first "=" and from nowhere else (a magnitude suffix in front of a parenthesis is dropped like any other); G11 per suffix letter the Number token ends behind the suffix (evaluated from the value term of the reader), or no unit spelling equals the letter; G5 is judged on the evaluated value term of both literal readers (match, const table or helper alike). Not decided: independence from spacing over all strings, exact f64 results. G12 (E7b) decimal literals in every separator convention and magnitude-suffixed literals come out of the lexical stages as one Number token, alone and inside an expression.'),
+             'stage order of tokinize. G9 a detached prefix sign negates (tabulated on positive, negative and fractional literals), variables / percentages / money get exactly one PrefixUnary wrapper, every numeric DataItem::unary negates on Minus and keeps the value on Plus. G10 token_cleaner drops Text tokens from position 0 or from behind the first "=" and from nowhere else (a magnitude suffix in front of a parenthesis is dropped like any other); G11 per suffix letter the Number token ends behind the suffix (evaluated from the value term of the reader), or no unit spelling equals the letter; G5 is judged on the evaluated value term of both literal readers (match, const table or helper alike). Not decided: independence from spacing over all strings, exact f64 results. G12 (E7b) decimal literals in every separator convention and magnitude-suffixed literals come out of the lexical stages as one Number token, alone and inside an expression. G13 the number reader carries no state from one literal of the line to the next (no loop-carried variable in the value term). G3 and G9 are tables by evaluation per operator character / sign.'),
     'C03': dict(
         technique='dominance / who-may-write / use-def rules over MIR; path-following abstract interpretation of the substitution search over order types (E6c)',
         ref='DESIGN.md section 5 C03',
@@ -40,67 +40,67 @@ CLAIMS = {
         ref='DESIGN.md section 5 C04',
         text='Static. Decided clauses: evaluation entry points take &self; every write to an interior-mutable cell reachable from the configuration type has a receiver derived from the '
              'evaluating tokenizer\'s own token list; insertions into that list are fresh Rc::new values; no mutable static; ambient callees in reach are limited to the UTC clock; execute allocates a fresh Session; '
-             'every body assigning Session.text_parts also resets Session.position. V4 (shared with C03) the key a binding is stored under and the key an assignment looks it up under are built alike, so a re-used session keeps one binding per name. Not decided: equality of results across histories as such.'),
+             'every body assigning Session.text_parts also resets Session.position. V4 (shared with C03) the key a binding is stored under and the key an assignment looks it up under are built alike, so a re-used session keeps one binding per name. Not decided: equality of results across histories as such. F5 also requires that set_text puts the cursor on the first line on every path to its return; the lines and the cursor of a Session are located by type.'),
     'C05': dict(
-        technique='value-DAG extraction + rational-function normalisation of the percent formulas; pattern/field-name cross-check against config.json; lexical competition model (E7b): generated sample lines evaluated on the configured regexes, family order and alias tables',
+        technique='value-DAG extraction + rational-function normalisation of the percent formulas; pattern/field-name cross-check against config.json; lexical competition model (E7b): generated sample lines evaluated on the configured regexes, family order and alias tables; E6c matcher table (rule_tokinizer / find_match / unit-literal scan walked over lines of up to four tokens against a reference scan)',
         ref='DESIGN.md section 5 C05',
         text='Static. Decided clauses: the six formulas as identities over Q(X,p,A,B) (modulo field identities, so algebraic rewrites stay silent); money result iff a currency was found, same value in both arms; '
-             'rule name -> function -> keyword routing per language; every field a rule function reads is bound by every pattern of that rule with an accepted type; both percent spellings. Q7 the phrase table is closed: every rule that consumes a PERCENT field is one of the phrases of the statement, a checked pass-through or provably inert (its function requires a field no pattern binds); Q8 no pattern names two fields alike. Not decided: f64 rounding. Q9 (E7b) percent literals and the phrase p% of X with X in every configured currency keep their Percent and Money tokens.'),
+             'rule name -> function -> keyword routing per language; every field a rule function reads is bound by every pattern of that rule with an accepted type; both percent spellings. Q7 the phrase table is closed: every rule that consumes a PERCENT field is one of the phrases of the statement, a checked pass-through or provably inert (its function requires a field no pattern binds); Q8 no pattern names two fields alike. Not decided: f64 rounding. Q9 (E7b) percent literals and the phrase p% of X with X in every configured currency keep their Percent and Money tokens. Q10 the matcher table (shared with C18 Y7). Q11 the percent reader carries no state from one literal of the line to the next.'),
     'C06': dict(
-        technique='value-DAG extraction of the conversion formula (two siblings), who-may-write on the rate table, decision table of MoneyItem::calculate, data cross-checks; lexical competition model (E7b): generated sample lines evaluated on the configured regexes, family order and alias tables',
+        technique='value-DAG extraction of the conversion formula (two siblings), who-may-write on the rate table, decision table of MoneyItem::calculate, data cross-checks; lexical competition model (E7b): generated sample lines evaluated on the configured regexes, family order and alias tables; E6c matcher table (rule_tokinizer / find_match / unit-literal scan walked over lines of up to four tokens against a reference scan)',
         ref='DESIGN.md section 5 C06',
         text='Static. Decided clauses: convert_money and MoneyItem::convert_currency compute amount / rate(from) * rate(to); currency_rate is written only by load_from_json and update_currency with the resolved key and the rate parameter; '
-             'arithmetic table of MoneyItem::calculate (currency kept, money/money -> number, operand conversion into self\'s currency); money regex groups; read_currency alias-then-code order; alias/rate keys exist. The scale-suffix tables of the number and money readers agree with 1000^k for every suffix (shared with C02 G5). M3 also: on every path under the MONEY arm the right operand of + - * / is convert_currency(self, config, other); M6 no pattern names two fields alike. Not decided: f64 exactness. M7 (E7b) an amount with every ISO code, every currency alias and the symbol forms of the statement is one Money token; neighbouring money literals pair with their own symbol.'),
+             'arithmetic table of MoneyItem::calculate (currency kept, money/money -> number, operand conversion into self\'s currency); money regex groups; read_currency alias-then-code order; alias/rate keys exist. The scale-suffix tables of the number and money readers agree with 1000^k for every suffix (shared with C02 G5). M3 also: on every path under the MONEY arm the right operand of + - * / is convert_currency(self, config, other); M6 no pattern names two fields alike. Not decided: f64 exactness. M7 (E7b) an amount with every ISO code, every currency alias and the symbol forms of the statement is one Money token; neighbouring money literals pair with their own symbol. M8 the matcher table (shared). M9 the money reader carries no state from one literal of the line to the next; the reader core requires the configured separators on every arm of a merged value.'),
     'C07': dict(
         technique='string-provenance rule on lengths used as indices, argument-wiring and decision-table extraction (format templates decoded from MIR constants), dependence analysis of float->int casts; E6c tables of the assembled text (format_number over symbolic renderings, PercentItem / MoneyItem printers)',
         ref='DESIGN.md section 5 C07',
         text='Static, narrow. Decided clauses: N1 a length measured on one rendering is used as an index only into that rendering; N2 each of the four printers hands format_number the value, separators, digit count and flags from the fields the statement names (unit options with their documented defaults), percent prefixes %, units substitute {value}; '
              'N3 each public setter writes exactly its fields from the same-named parameters and the three per-unit options keep their names at every construction site; N4 the minus sign is pushed iff number < 0, first, and the digits are those of |number|; N5 no saturating float->int cast is applied to a magnitude-dependent value inside the formatter; '
-             'N6 the printed shape of money for each (symbol_on_left, space_between) combination; N7 grouping modulus 3 and the role / order of the two separators. N8 fract_information reports a zero fraction only under an exact == 0.0 and the fraction is printed iff (fract_part > 0 or zero fractions are kept) and a fraction exists (8 truth assignments walked on the CFG). N9 the printed text is assembled by position from the rendering: for every length of the integer part (1..13, thorough 1..40), 0/1/2/5 fraction digits, either sign and every setting of the two zero-fraction flags the result is [-] + the integer digits in groups of three from the right + [decimal separator + fraction digits], tabulated by walking the exported MIR over symbolic renderings (E6c; independent of how the loops are written); N7 and the omission table of N8 defer to it, N1 falls back on the provenance of positions recorded in these walks. Not decided: correct rounding of the value and the text of the renderings themselves (numerical behaviour, not reachable by this family); integer parts longer than the tabulated bound.'),
+             'N6 the printed shape of money for each (symbol_on_left, space_between) combination; N7 grouping modulus 3 and the role / order of the two separators. N8 fract_information reports a zero fraction only under an exact == 0.0 and the fraction is printed iff (fract_part > 0 or zero fractions are kept) and a fraction exists (8 truth assignments walked on the CFG). N9 the printed text is assembled by position from the rendering: for every length of the integer part (1..13, thorough 1..40), 0/1/2/5 fraction digits, either sign and every setting of the two zero-fraction flags the result is [-] + the integer digits in groups of three from the right + [decimal separator + fraction digits], tabulated by walking the exported MIR over symbolic renderings (E6c; independent of how the loops are written); N7 and the omission table of N8 defer to it, N1 falls back on the provenance of positions recorded in these walks. Not decided: correct rounding of the value and the text of the renderings themselves (numerical behaviour, not reachable by this family); integer parts longer than the tabulated bound. N3 also requires that every setter stores its argument on every path (no guard that silently keeps the old value).'),
     'C08': dict(
         technique='effect analysis: field-read sets + call-graph layering (non-interference by absence of reads)',
         ref='DESIGN.md section 5 C08',
         text='Static. Decided clauses: the bodies reading the separator fields are exactly the three literal readers and the four printers; no compute-layer body (calculate/get_number/unary impls, rule functions, interpreter, unit conversion) reaches one of them; '
-             'the three readers apply the same transformation in the same order. A4 sample literals with thousands groups and a fraction are accepted by the number and percent regexes in every separator convention (shared with C15). Not decided: that every literal of a convention is matched by the regexes. R6 the literal readers skip a match only for a missing group or a parse error (the vocabulary of their head calls); any other skip decision is reported.'),
+             'the three readers apply the same transformation in the same order. A4 sample literals with thousands groups and a fraction are accepted by the number and percent regexes in every separator convention (shared with C15). Not decided: that every literal of a convention is matched by the regexes. R6 the literal readers skip a match only for a missing group or a parse error (the vocabulary of their head calls); any other skip decision is reported. R7 no literal reader carries state between captures.'),
     'C09': dict(
         technique='finite-domain tabulation of the extracted month/year step terms (month 1..12 x count 1..12) against calendar arithmetic; argument wiring; gamma decision tables; scan-shape rule over the parser registries; lexical competition model (E7b): generated sample lines evaluated on the configured regexes, family order and alias tables',
         ref='DESIGN.md section 5 C09',
         text='Static. Decided clauses: D1 the date DateItem::calculate hands to its final +/- step, tabulated from the result term of the function over Add/Sub x year/month step x every (month, count) cell, equal calendar arithmetic with the day unchanged (failure classes invalid-month / wrong-year / wrong-month are separate findings); D2 small_date builds the date with the checked constructor from the fields named year / month / day, rejects None, defaults the year to the current year, and every date pattern binds day and month with accepted types; '
              'D3 A to B is the larger minus the smaller of the two stored values, for dates and for times; D4 today / tomorrow / yesterday are today +0 / +1 / -1 days and every language names them; D5 every literal parser iterates over all matches; D6 month table numbering (index+1, stored at number-1, emitted by the parser, printed from month-1); D7 the duration is split by YEAR and MONTH with exact remainders and the remainder is applied with the operation\'s own operator. '
-             'L2 every configured month spelling is recognised by the regexes built at load time (shared with C19). D8 no date pattern names two fields alike. Not decided: leap days, day-of-month overflow (31 Jan + 1 month), 30-day months versus calendar months for counts given in days. D1 also walks day 31 for the cells whose target date exists and reports a nested invalid from_ymd as unwinding. D9 (E7b) every month name of every language is a Month token between two numbers.'),
+             'L2 every configured month spelling is recognised by the regexes built at load time (shared with C19). D8 no date pattern names two fields alike. Not decided: leap days, day-of-month overflow (31 Jan + 1 month), 30-day months versus calendar months for counts given in days. D1 also walks day 31 for the cells whose target date exists and reports a nested invalid from_ymd as unwinding. D9 (E7b) every month name of every language is a Month token between two numbers. D1 also walks leap-day cells (steps that start or arrive on 29 February, incl. a year divisible by 400).'),
     'C10': dict(
-        technique='evaluated constants, gamma decision tables, CFG chain shape, data tables; lexical competition model (E7b): generated sample lines evaluated on the configured regexes, family order and alias tables; E6c tables of the format selection (duration_formatter) and of the sum (combine_durations)',
+        technique='evaluated constants, gamma decision tables, CFG chain shape, data tables; lexical competition model (E7b): generated sample lines evaluated on the configured regexes, family order and alias tables; E6c tables of the format selection (duration_formatter) and of the sum (combine_durations); E6c matcher table (rule_tokinizer / find_match / unit-literal scan walked over lines of up to four tokens against a reference scan)',
         ref='DESIGN.md section 5 C10',
         text='Static. Decided clauses: MINUTE..YEAR constants; duration_parse table (unit -> constructor/factor); combine_durations sums every field, calculate table; the print chain divides and reduces by the same constant in strictly descending order (sum-preserving by construction); '
-             'singular/plural tables; as_duration flooring table with matching divisor and constructor. DU7 the pattern scan never restarts a pattern on the token that failed it (scan index only 0 / +1, never borrowed), which is what makes `D1 D2 as unit` floor the whole duration although as_duration is tried before combine_durations. DU8 no duration pattern names two fields alike (a repeated name silently drops a matched duration). Not decided: overflow for huge counts (C01), spelling recognition. DU5 the format used is the exact-count entry of the unit, else its generic entry, else the bare number (E6c table over format tables of up to three entries); DU3 combine_durations returns the formal sum of all captured durations (E6c, 2..4 fields). DU9 (E7b) every duration word of every language follows its number as a plain word.'),
+             'singular/plural tables; as_duration flooring table with matching divisor and constructor. DU7 the pattern scan never restarts a pattern on the token that failed it (scan index only 0 / +1, never borrowed), which is what makes `D1 D2 as unit` floor the whole duration although as_duration is tried before combine_durations. DU8 no duration pattern names two fields alike (a repeated name silently drops a matched duration). Not decided: overflow for huge counts (C01), spelling recognition. DU5 the format used is the exact-count entry of the unit, else its generic entry, else the bare number (E6c table over format tables of up to three entries); DU3 combine_durations returns the formal sum of all captured durations (E6c, 2..4 fields). DU9 (E7b) every duration word of every language follows its number as a plain word. DU10 the matcher table (shared; DU7 defers to it when the counters it names are gone). DU6 also requires that no result of as_duration is selected by the size of the duration.'),
     'C11': dict(
         technique='call-chain signatures of the zone conversions (with the resolved time-zone type of every chrono call), unit rule at every FixedOffset constructor, finite-domain tabulation of the GMT offset formula and of as_time, who-may-call rule for the host zone, gamma tables; lexical competition model (E7b): generated sample lines evaluated on the configured regexes, family order and alias tables',
         ref='DESIGN.md section 5 C11',
         text='Static. Decided clauses: Z1 reading a time anchors the wall time in east(default*60) and stores its UTC instant with the default zone; re-anchoring reads the instant in the current zone and anchors the same wall time in east(target*60); conversion keeps the stored instant and swaps the display zone; printing shows east(offset*60).from_utc_datetime(instant); '
              'Z2 every FixedOffset constructor in the crate is east(<offset in minutes> * 60); Z3 all table offsets are multiples of 15 minutes within [-720, 840], UTC/GMT are 0, GMT+/-h[:mm] = sign*(h*60+m) on every (hour, minute, sign) cell, regex bounds h <= 19, m <= 59; Z4 as_time(d) = ((|d|/3600) mod 24, (|d| mod 3600)/60, |d| mod 60) on boundary durations of both signs; '
              'Z5 no evaluation-reachable call goes through chrono::Local; Z6 set_timezone stores the upper-cased name and offset parse_timezone returned; Z7 and_hms takes hour / minute / second from the groups of those names, pm adds 12 below 12, regex bounds; Z8 TimeItem::calculate adds / subtracts seconds-from-midnight of the operand; Z9 T1 to T2 is the larger minus the smaller stored instant. '
-             'Not decided: real-world correctness of the 191 offsets; 12:xx am/pm (excluded by the statement). Z11 (E7b) a time followed by every zone abbreviation of the table and the GMT forms is Time Timezone. Direct reads of a token payload are canonicalised to the typed getter before the chains are compared.'),
+             'Not decided: real-world correctness of the 191 offsets; 12:xx am/pm (excluded by the statement). Z11 (E7b) a time followed by every zone abbreviation of the table and the GMT forms is Time Timezone. Direct reads of a token payload are canonicalised to the typed getter before the chains are compared. Z12 the time reader carries no state from one literal to the next.'),
     'C12': dict(
-        technique='exact rational arithmetic over the unit tables of config.json; gamma-expanded value DAGs of calculate_unit/convert/calculate; lexical competition model (E7b): generated sample lines evaluated on the configured regexes, family order and alias tables',
+        technique='exact rational arithmetic over the unit tables of config.json; gamma-expanded value DAGs of calculate_unit/convert/calculate; lexical competition model (E7b): generated sample lines evaluated on the configured regexes, family order and alias tables; E6c matcher table (rule_tokinizer / find_match / unit-literal scan walked over lines of up to four tokens against a reference scan)',
         ref='DESIGN.md section 5 C12',
         text='Static. Decided clauses: K1 adjacent steps are inverse (exact rationals); K2 every step and bridge equals the definition quoted in the property; K5 all code strings are positive linear maps (K1+K5 => linear, invertible, transitive over the reals); '
-             'K4 walk shape of calculate_unit (which code, which direction, step 1) and bridge-code selection; K3 bridges connect one kind and the family searched after a bridge depends on the bridge record; K6 arithmetic table; K7 literal patterns. K6 also requires that every operand entering the arithmetic under the DYNAMIC_TYPE arm is the result of convert(..); K4b the result of calculate_unit is the accumulated amount itself and convert does no arithmetic of its own. Z10 no pattern names two fields alike. K9 no unit spelling is a currency code or alias that a money regex accepts (the money reader runs first); K10 no pattern names two fields alike. Not decided: f64 rounding; separator dependence (C08). K4b every early return of calculate_unit is conditioned on the units, not on the amount. K11 (E7b) a quantity in every unit spelling (both letter cases) is Number Text.'),
+             'K4 walk shape of calculate_unit (which code, which direction, step 1) and bridge-code selection; K3 bridges connect one kind and the family searched after a bridge depends on the bridge record; K6 arithmetic table; K7 literal patterns. K6 also requires that every operand entering the arithmetic under the DYNAMIC_TYPE arm is the result of convert(..); K4b the result of calculate_unit is the accumulated amount itself and convert does no arithmetic of its own. Z10 no pattern names two fields alike. K9 no unit spelling is a currency code or alias that a money regex accepts (the money reader runs first); K10 no pattern names two fields alike. Not decided: f64 rounding; separator dependence (C08). K4b every early return of calculate_unit is conditioned on the units, not on the amount. K11 (E7b) a quantity in every unit spelling (both letter cases) is Number Text. K12 the matcher table incl. the unit-literal scan (which token the amount is read from). K13 unit names are compared by equality only (no prefix / substring test).'),
     'C13': dict(
         technique='table agreement between reader (regex classes, radix constants) and printer (format traits, cast width) from MIR constants and regex-syntax; lexical competition model (E7b): generated sample lines evaluated on the configured regexes, family order and alias tables',
         ref='DESIGN.md section 5 C13',
         text='Static. Decided clauses: (group, prefix class, digit class, radix constant, NumberType, format trait) rows agree for bases 2/8/16; reader integer type and printer cast width agree; number_type_convert rounds and its word table equals the configured word group; results keep self.1. '
-             'Not decided: round trip for every integer as such. B3 also requires that the arms of the base conversion test the operand type only (no guard on the value). B7 (E7b) based literals come out as one Number token.'),
+             'Not decided: round trip for every integer as such. B3 also requires that the arms of the base conversion test the operand type only (no guard on the value). B7 (E7b) based literals come out as one Number token. B8 the number reader carries no state from one literal to the next.'),
     'C14': dict(
         technique='use-def wiring of the epoch API pair; cast-width rule',
         ref='DESIGN.md section 5 C14',
-        text='Static. Decided clauses: from_unixtime builds the UTC value with from_timestamp(N as i64, 0), to_unixtime reads .timestamp() of the stored UTC value or of midnight, with no offset arithmetic in between; Raw numbers print with a 64-bit cast; patterns bind the fields read. The word table of B3 is evaluated per target word from the result term; B6 no pattern names two fields alike. Z3 (shared with C11) the zone table and the GMT+/-h[:mm] formula that give "N to date" its zone; X6 no pattern names two fields alike. Not decided: calendar correctness of chrono.'),
+        text='Static. Decided clauses: from_unixtime builds the UTC value with from_timestamp(N as i64, 0), to_unixtime reads .timestamp() of the stored UTC value or of midnight, with no offset arithmetic in between; Raw numbers print with a 64-bit cast; patterns bind the fields read. The word table of B3 is evaluated per target word from the result term; B6 no pattern names two fields alike. Z3 (shared with C11) the zone table and the GMT+/-h[:mm] formula that give "N to date" its zone; X6 no pattern names two fields alike. Not decided: calendar correctness of chrono. D2 (shared with C09) the date spelling reader: the year is the year written.'),
     'C15': dict(
         technique='reader/printer table agreement: printed shapes (format strings of config.json, format templates and literals found as MIR constants, symbol placement table) checked for membership in the reader\'s tables and in the regex-syntax HIR of the reader\'s regexes, per kind and language; lexical competition model (E7b): generated sample lines evaluated on the configured regexes, family order and alias tables',
         ref='DESIGN.md section 5 C15',
         text='Static, table level. Decided clauses: A1 every word of a duration format of language L is a duration word of L of the same kind and in L\'s duration word group, L configures the reading and combining rules, and the duration printer emits counts, words and blanks only; A2 each date format of L has the token-class sequence and field names of one of L\'s date patterns and month names come from L\'s month table; '
              'A3 HH:MM:SS is in the language of a time regex, zone names are in the zone regex, L has the rule that reads a time followed by a zone; A4 printed number / percent samples in every separator configuration of the quantifier are in the reader\'s regexes, the percent sign position agrees; '
              'A5 for the currencies nameable through the alias table the printed symbol is inside the CURRENCY class of a money regex with the same placement and resolves back to the same currency; A6 the word of every unit format is a word its parse patterns accept, number first; A7 based-integer prefix / digit alphabet and regex order (shared with C13). '
-             'A8 (shared) the date reader takes the year exactly as written (C09 D2) and the number printer cuts its rendering with lengths measured on that rendering (C07 N1). N2 (shared with C07) every printer hands format_number the configured separators the readers normalise with. Not decided: that the re-read value prints identically (depends on rounding, C07, and on regex competition between families). A9 (E7b) the zone, money and alias samples of the neighbouring properties, as far as a printed result contains them. A4 and N2 / N6 read the printed assembly off an E6c walk of the printers.'),
+             'A8 (shared) the date reader takes the year exactly as written (C09 D2) and the number printer cuts its rendering with lengths measured on that rendering (C07 N1). N2 (shared with C07) every printer hands format_number the configured separators the readers normalise with. Not decided: that the re-read value prints identically (depends on rounding, C07, and on regex competition between families). A9 (E7b) the zone, money and alias samples of the neighbouring properties, as far as a printed result contains them. A4 and N2 / N6 read the printed assembly off an E6c walk of the printers. A10 the parser hands back the result of the expression ladder unchanged (no error of its own for left-over tokens, which printed forms such as the Danish amount have).'),
     'C16': dict(
         technique='origin-scoped comparison rule (case normalisation of both operands), table-case data rules, argument wiring of the noise parsers, per-stage producer-order rule over the parser registries, finite enumeration of interval orderings for the claim predicate; lexical competition model (E7b): generated sample lines evaluated on the configured regexes, family order and alias tables',
         ref='DESIGN.md section 5 C16',
@@ -112,16 +112,16 @@ CLAIMS = {
         ref='DESIGN.md section 5 C17',
         text='Static. Decided clauses: H1 values stored into UiToken.start/end are character offsets, no comparison / field / parameter in the crate mixes byte and character offsets, the per-byte map is indexed with byte offsets only and get_position returns characters on every path; '
              'H2 a regex match offset is used as a line offset only when the haystack is the tokenizer\'s identity copy of the line, and that copy and the byte->char map are built from the same string; H3 tokens are appended only after the collision test, the collision predicate rejects every one of the interval orderings that share a character (all orderings of the four end points enumerated), sort dominates every merge, a merge replaces a run by one token with the outer bounds; '
-             'H4 number / operator / comment parsers report their own kind on the group they tokenised, after the internal token was accepted. H5 the byte offset of the k-th character becomes the character position k and the byte length of the line the number of its characters: tabulated by walking UiTokenCollection::new and get_position (E6c on symbolic strings, callees entered) for every line of up to three characters of 1..4 bytes and every character boundary, whatever data structure the map uses; H1 takes the unit of the result of get_position from this table. Not decided: well-formedness for all lines as such (depends on regex behaviour and on the known haystack findings). H6 no value carrying a byte or character unit is cast to a narrower integer and the element type of the character map is usize.'),
+             'H4 number / operator / comment parsers report their own kind on the group they tokenised, after the internal token was accepted. H5 the byte offset of the k-th character becomes the character position k and the byte length of the line the number of its characters: tabulated by walking UiTokenCollection::new and get_position (E6c on symbolic strings, callees entered) for every line of up to three characters of 1..4 bytes and every character boundary, whatever data structure the map uses; H1 takes the unit of the result of get_position from this table. Not decided: well-formedness for all lines as such (depends on regex behaviour and on the known haystack findings). H6 no value carrying a byte or character unit is cast to a narrower integer and the element type of the character map is usize. H7 a new span is accepted exactly when it overlaps no token of the collection, in any push order (E6c, collections of up to two tokens); H5 also walks offsets behind the end of the line (they must stay within it).'),
     'C18': dict(
-        technique='write-shape rules on the rule list / type table, sibling agreement of the three rewrite arms, panic obligations fed by user data',
+        technique='write-shape rules on the rule list / type table, sibling agreement of the three rewrite arms, panic obligations fed by user data; E6c matcher table (rule_tokinizer / find_match / unit-literal scan walked over lines of up to four tokens against a reference scan)',
         ref='DESIGN.md section 5 C18',
         text='Static. Decided clauses: add_rule appends exactly one API entry and fails only on unknown language without a write; delete_rule removes the first API entry of that name and nothing else; no other writer of the rule list outside setup; the three rewrite arms follow one protocol; field names reach the rule unchanged; duplicate family/item paths return false before any write; '
-             'user-supplied patterns/indices cannot panic the evaluator. Y5 registrations are history-free: the calculator has no state besides its configuration and every stored token list is, on every path, the result of token_infos on a session created for that one pattern; Y6 the three-part field regex accepts letters of any case, digits and non-ASCII letters in NAME and EXTRA. Not decided: user RuleTrait code; histories as such.'),
+             'user-supplied patterns/indices cannot panic the evaluator. Y5 registrations are history-free: the calculator has no state besides its configuration and every stored token list is, on every path, the result of token_infos on a session created for that one pattern; Y6 the three-part field regex accepts letters of any case, digits and non-ASCII letters in NAME and EXTRA. Not decided: user RuleTrait code; histories as such. Y7 the pattern scan, tabulated (matcher table): for internal rules, user rules and unit literals the rule function is called with every named field bound to the token that matched it in the completed attempt, the scan goes on behind a token that ended an attempt, and the matched run is replaced by one token at its start.'),
     'C19': dict(
         technique='per-language table parity on config.json + wiring of the session language to the printers; lexical competition model (E7b): generated sample lines evaluated on the configured regexes, family order and alias tables',
         ref='DESIGN.md section 5 C19',
-        text='Static, table level. Decided clauses: every language has all months (long+short), all duration kinds, constant kinds 1..11, every referenced word group; every configured month spelling is recognisable; printers look up the session language and pass it on; word-free rules have identical patterns in all languages. L7 every alias key, compiled between two word boundaries, is bounded by them (no top-level alternation). Not decided: value equality of translated lines. L8 the first letter of a month or weekday name is taken by character (E4 units), and (E7b) month names with a multi-byte first letter are Month tokens. D6 (shared with C09) the row index of the month table is the month number minus one.'),
+        text='Static, table level. Decided clauses: every language has all months (long+short), all duration kinds, constant kinds 1..11, every referenced word group; every configured month spelling is recognisable; printers look up the session language and pass it on; word-free rules have identical patterns in all languages. L7 every alias key, compiled between two word boundaries, is bounded by them (no top-level alternation). Not decided: value equality of translated lines. L8 the first letter of a month or weekday name is taken by character (E4 units), and (E7b) month names with a multi-byte first letter are Month tokens. D6 (shared with C09) the row index of the month table is the month number minus one. Y5 (shared with C18) a rule, date pattern or unit registered for a language is tokenised in that language.'),
 }
 
 
